@@ -31,13 +31,14 @@ type Conn struct {
 	mu   sync.Mutex
 	cond *sync.Cond
 
-	toClient   []byte // bytes the server has sent, not yet read by the client
-	maxRead    int    // largest number of bytes one Read returns (0 = no limit)
-	eof        bool   // server closed its side: Read returns io.EOF once toClient is drained
-	readErr    error  // injected read error (returned once toClient is drained)
-	closed     bool   // client called Close
+	toClient   []byte        // bytes the server has sent, not yet read by the client
+	maxRead    int           // largest number of bytes one Read returns (0 = no limit)
+	eof        bool          // server closed its side: Read returns io.EOF once toClient is drained
+	readErr    error         // injected read error (returned once toClient is drained)
+	closed     bool          // client called Close
 	closedCh   chan struct{} // closed by Close: a Write waiting at the gate returns, as a write on a real socket would
 	wdeadline  time.Time     // SetWriteDeadline
+	rdeadline  time.Time     // SetReadDeadline: a Read that has nothing to return by then fails with a timeout
 	stallN     int           // the next Write takes only this many bytes at first ...
 	stallFor   time.Duration // ... and the rest after this long (or fails with a timeout if the write deadline comes first)
 	writes     []Write
@@ -87,6 +88,15 @@ func (c *Conn) Read(p []byte) (int, error) {
 		}
 		if c.eof {
 			return 0, io.EOF
+		}
+		if dl := c.rdeadline; !dl.IsZero() {
+			if !time.Now().Before(dl) {
+				return 0, timeoutError{}
+			}
+			t := time.AfterFunc(time.Until(dl), func() { c.mu.Lock(); c.cond.Broadcast(); c.mu.Unlock() })
+			c.cond.Wait()
+			t.Stop()
+			continue
 		}
 		c.cond.Wait()
 	}
@@ -174,10 +184,19 @@ func (c *Conn) Close() error {
 	return nil
 }
 
-func (c *Conn) LocalAddr() net.Addr                { return addr("client") }
-func (c *Conn) RemoteAddr() net.Addr               { return addr(c.Addr) }
-func (c *Conn) SetDeadline(t time.Time) error      { return nil }
-func (c *Conn) SetReadDeadline(t time.Time) error  { return nil }
+func (c *Conn) LocalAddr() net.Addr  { return addr("client") }
+func (c *Conn) RemoteAddr() net.Addr { return addr(c.Addr) }
+func (c *Conn) SetDeadline(t time.Time) error {
+	c.SetReadDeadline(t)
+	return c.SetWriteDeadline(t)
+}
+func (c *Conn) SetReadDeadline(t time.Time) error {
+	c.mu.Lock()
+	c.rdeadline = t
+	c.cond.Broadcast()
+	c.mu.Unlock()
+	return nil
+}
 func (c *Conn) SetWriteDeadline(t time.Time) error {
 	c.mu.Lock()
 	c.wdeadline = t
